@@ -35,10 +35,11 @@ def main():
         if r.returncode != 0:
             print("cannot apply patch:", r.stdout)
             return 2
-        sh(f"git clone -q /verif {verif}")
+        src = os.environ.get("VERIF_SRC", "/verif")   # a builder's clone may be tested instead of /verif
+        sh(f"git clone -q {src} {verif}")
         # reuse build products
         for d in ("lean/.lake", "harness/target"):
-            src = os.path.join("/verif", d)
+            src = os.path.join(os.environ.get("VERIF_SRC", "/verif"), d)
             if os.path.isdir(src):
                 sh(f"cp -a {src} {os.path.join(verif, d)}")
         sh(f"sed -i 's|/repo/|{repo}/|g' {verif}/harness/Cargo.toml")
